@@ -764,13 +764,18 @@ func calAndSetEventNode(e *Expr) {
 			isFastOp = n.getNodeType() == fastOperator
 		)
 		return func(ctx *Ctx, params []Value) (res Value, err error) {
+			// the engine reuses its parameter buffer for the next operator,
+			// so the event carries a private copy of the arguments
+			eventParams := make([]Value, len(params))
+			copy(eventParams, params)
+
 			res, err = op(ctx, params)
 			e.EventChan <- Event{
 				EventType: OpExecEvent,
 				Data: OpEventData{
 					IsFastOp: isFastOp,
 					OpName:   name,
-					Params:   params,
+					Params:   eventParams,
 					Res:      res,
 					Err:      err,
 				},
